@@ -147,15 +147,20 @@ var layouts = map[string]layoutDef{
 	"exttest":  {"{{.InterfaceDir}}", "ext_mocks_test.go", "{{.SrcPackageName}}_test"},
 	"src-one":  {"{{.InterfaceDir}}", "zz_mocks_gen.go", "{{.SrcPackageName}}"},
 	"src-per":  {"{{.InterfaceDir}}", "zz_mock_{{.InterfaceName | snakecase}}.go", "{{.SrcPackageName}}"},
-	"sub-one":  {"{{.InterfaceDir}}/mocks", "mocks.go", "mocks"},
-	"sub-per":  {"{{.InterfaceDir}}/mocks", "{{.InterfaceName}}.go", "mocks"},
-	"tree":     {"mocks/{{.SrcPackagePath}}", "mocks.go", "mocks_{{.SrcPackageName}}"},
-	"shared":   {"internal/allmocks", "{{.SrcPackageName}}_mocks.go", "allmocks"},
+	// non-test output in the source package that sorts before / between the source files api.go and
+	// more.go (the rerun then meets its own output in the middle of pkg.GoFiles)
+	"src-first":   {"{{.InterfaceDir}}", "aa_mocks_gen.go", "{{.SrcPackageName}}"},
+	"src-mid":     {"{{.InterfaceDir}}", "gen_mocks.go", "{{.SrcPackageName}}"},
+	"src-mid-per": {"{{.InterfaceDir}}", "gen_mock_{{.InterfaceName | snakecase}}.go", "{{.SrcPackageName}}"},
+	"sub-one":     {"{{.InterfaceDir}}/mocks", "mocks.go", "mocks"},
+	"sub-per":     {"{{.InterfaceDir}}/mocks", "{{.InterfaceName}}.go", "mocks"},
+	"tree":        {"mocks/{{.SrcPackagePath}}", "mocks.go", "mocks_{{.SrcPackageName}}"},
+	"shared":      {"internal/allmocks", "{{.SrcPackageName}}_mocks.go", "allmocks"},
 	// .StructName piped through a function that does not commute with resolving the (templated)
 	// structname: deterministic only if every templated parameter sees the same .StructName
 	"sn-dir": {"{{.InterfaceDir}}/mocks/{{ .StructName | firstLower }}", "mock.go", "mocks"},
 }
-var layoutIDs = []string{"test-one", "test-per", "exttest", "src-one", "src-per", "sub-one", "sub-per", "tree", "shared", "sn-dir"}
+var layoutIDs = []string{"test-one", "test-per", "exttest", "src-one", "src-per", "src-first", "src-mid", "src-mid-per", "sub-one", "sub-per", "tree", "shared", "sn-dir"}
 
 // filename-only overrides: always a per-interface test file, valid in every directory and
 // under every pkgname the layouts above produce
@@ -923,7 +928,7 @@ func analyse(c Case) shape {
 	}
 	s.structPiped = lay["sn-dir"] || lay["sn-file"]
 	delete(lay, "sn-file")
-	for _, l := range []string{"src-one", "src-per"} {
+	for _, l := range []string{"src-one", "src-per", "src-first", "src-mid", "src-mid-per"} {
 		if lay[l] {
 			s.reparse = true
 		}
